@@ -549,7 +549,29 @@ def run_fix_scenario(case):
                         img_now.cleanup()
                     res["counters"]["twin_fix_not_at_fixpoint"] = res["counters"].get("twin_fix_not_at_fixpoint", 0) + (1 if twin2["tree"] != twin_tree else 0)
                 if twin2["tree"] != twin_tree:
-                    ref_tree = twin2["tree"]
+                    # the second run counts as the reference only if it differs from the first by RECOVERING MORE: every
+                    # entry that changed is now the recorded version of a file, or the 'name.unrecoverable' of such a file
+                    # that is gone; anything else (a run that undoes or alternates what the previous one did) is not a
+                    # fix-point to compare with
+                    import hashlib
+
+                    def is_recorded(key_, ent):
+                        e0 = state0[key_[0]].get(key_[1])
+                        return (ent is not None and e0 is not None and e0[0] == "file" and ent[0] == "file" and ent[1] == len(e0[1])
+                                and ent[2] == e0[2] and ent[4] == hashlib.sha256(e0[1]).hexdigest())
+                    t1, t2 = twin_tree, twin2["tree"]
+                    better = True
+                    for k_ in set(t1) | set(t2):
+                        if t1.get(k_) == t2.get(k_):
+                            continue
+                        if is_recorded(k_, t2.get(k_)):
+                            continue
+                        if k_[1].endswith(b".unrecoverable") and t2.get(k_) is None and is_recorded((k_[0], k_[1][:-len(b".unrecoverable")]), t2.get((k_[0], k_[1][:-len(b".unrecoverable")]))):
+                            continue
+                        better = False
+                        break
+                    if better:
+                        ref_tree = twin2["tree"]
             def recovered_instead(key_):
                 """the resumed run holds the RECORDED version of a file (bytes and time-stamp) where the uninterrupted run
                 gave up and left 'name.unrecoverable': more was recovered, nothing is different or worse (seen when the
